@@ -99,9 +99,20 @@ def charts(ctx, out):
         src = gen.rand_src(rng, p)
         cases.append((src, gen.render(src, rng, p)))
     cases += ic.far_cases(rng, ic.prof(garbage=0.0, exotic_pad=0.0, exotic_digits=0.0))  # ticks and lengths beyond 2^53, adjacent ticks
+    def consistent(dx, src, R, rp):
+        # the index a note carries points into the track's own public phrase list: that phrase, as stored, covers the note (half-open)
+        # and no earlier stored phrase does; a note without an index is covered by no stored phrase
+        for k, v in dx["tracks"].items():
+            stored = [(t, ln) for t, ln, *_ in v.get("sps", [])]
+            for n in v.get("notes", []):
+                w = gen.sp_truth(stored, n["tick"])
+                if n["sp"] != w:
+                    out.violation("self-" + fw.h(R.text), f"track {k}: note at tick {n['tick']} carries star-power index {n['sp']}, but among the track's own stored phrases "
+                                  f"{stored[:6]} the first one covering that tick is {w}", {**rp, "selfcheck": True}, observed=n["sp"], promised=w)
+                    return
     ic.run(ctx, out, cases, lambda notes: [(n["tick"], n["sp"]) for n in notes],
            lambda tl: [(t["tick"], t["sp"]) for t in tl], "star-power indices",
-           lambda src: any(gen.sp_truth(tr.phrases, g.tick) is not None for tr in src.tracks for g in tr.groups))
+           lambda src: any(gen.sp_truth(tr.phrases, g.tick) is not None for tr in src.tracks for g in tr.groups), also=consistent)
 
 
 def slice(ctx: fw.Ctx) -> fw.Outcome:
@@ -123,4 +134,14 @@ def replay(ctx, data):
             i = impl.err_name(e)
         want = [gen.sp_truth(ps, t) for t in data["ticks"]]
         return i != want, str(i)
+    if data.get("selfcheck"):
+        d = gen.parse_dump(impl.run_chart(data["text"]))
+        if d["err"] is not None:
+            return True, d["err"]
+        for k, v in d["tracks"].items():
+            stored = [(t, ln) for t, ln, *_ in v.get("sps", [])]
+            for n in v.get("notes", []):
+                if n["sp"] != gen.sp_truth(stored, n["tick"]):
+                    return True, f"note {n['tick']} index {n['sp']} stored {stored[:6]}"
+        return False, "consistent"
     return ic.replay_chart(data, lambda notes: [[n["tick"], n["sp"]] for n in notes])
